@@ -55,7 +55,14 @@ func runIns(r *mc.Run, scen string, c *gen.DebCompressor, ins []In, st *mc.Stats
 			r.HarnessError("%s: cannot build %s: %v", scen, in.Name, err)
 			return false
 		}
+		big := bigMem(*in)
+		if big {
+			BigMem <- struct{}{}
+		}
 		vs, obs := Check(scen, *in)
+		if big {
+			<-BigMem
+		}
 		if len(obs) == 0 {
 			return false // the process has seen a hang: nothing more is executed
 		}
@@ -127,6 +134,9 @@ func Run(r *mc.Run) {
 	// ---- scenario 0 (first, and on ONE worker, so that what it reports does not depend on what other workers do):
 	// two / three Debs alive at the same time, every interleaving of their load / read / close steps
 	interleaved(r, c, comps)
+
+	// ---- scenario 0b (also one goroutine, GOMAXPROCS(1)): operation HISTORIES over three package slots
+	histScenario(r, c, comps)
 
 	dpkgCross(r, c, ps, dfs, comps)
 
@@ -586,6 +596,22 @@ func paramSelfCheck(r *mc.Run, c *gen.DebCompressor, blob []byte) {
 	r.Extra["declared_dictionary_or_window_bytes"] = decl
 }
 
+// bigMem: the package makes a decoder allocate a large dictionary / window (see BigMem).
+func bigMem(in In) bool {
+	for _, c := range []string{in.Model.ControlComp, in.Model.DataComp} {
+		switch {
+		case c == "xz:9", c == "xz:9e", c == "lzma:py9":
+			return true
+		case strings.Contains(c, "dict=") || strings.Contains(c, "window="):
+			v := c[strings.Index(c, "=")+1:]
+			if strings.HasSuffix(v, "M") || len(v) >= 8 { // given in MiB, or >= 10 000 000 bytes
+				return true
+			}
+		}
+	}
+	return strings.Contains(in.Name, "-z9") || strings.Contains(in.Name, "-z19")
+}
+
 func has(xs []string, x string) bool {
 	for _, y := range xs {
 		if y == x {
@@ -752,7 +778,14 @@ func dpkgCross(r *mc.Run, c *gen.DebCompressor, ps []paragraph, dfs [][]gen.TarE
 				r.HarnessError("dpkg-deb produced unexpected members for %s: %v %v", in.Name, memberNames(ms), err)
 				return true
 			}
+			big := bigMem(in)
+			if big {
+				BigMem <- struct{}{}
+			}
 			vs, obs := Check("dpkg-deb-built", in)
+			if big {
+				<-BigMem
+			}
 			if len(obs) == 0 {
 				return false
 			}
@@ -800,7 +833,7 @@ func interleaved(r *mc.Run, c *gen.DebCompressor, comps []string) {
 	z, zc, x, l, g := idx("control=gz data=zst"), idx("control=zst"), idx("control=gz data=xz"), idx("control=gz data=lzma"), idx("control=gz data=gz")
 	tri = append(tri, [3]int{z, g, z}, [3]int{z, zc, z}, [3]int{x, z, l}, [3]int{zc, z, x}, [3]int{g, x, g})
 	r.Scenario("interleaved-debs", map[string]interface{}{"packages": names, "pairs": "all ordered pairs of the packages (incl. the same bytes twice)",
-		"pair_schedules": "all 20 interleavings of two load<read<close chains + entry-by-entry alternation for pairs whose varied member has the same encoding (thorough: all pairs); for the other pairs: the non-overlapping one, the alternation, and every schedule that starts load #0, load #1, read, read (both ordered pairs are enumerated)", "triples": len(tri),
+		"pair_schedules": "all 20 interleavings of two load<read<close chains + entry-by-entry alternation for pairs whose varied member has the same encoding (thorough: all pairs); for the other pairs: the non-overlapping one, the alternation, and the two schedules load #0, load #1, read x, read y, close #0, close #1 (both ordered pairs are enumerated)", "triples": len(tri),
 		"triple_schedules": "all loaded first, 6 read orders x {close at the end, close right after reading} + alternation",
 		"workers":          "1 (sequential, so the result does not depend on concurrent activity)", "step_guard": HangGuard.String()},
 		1, func(_ int, st *mc.Stats) bool {
@@ -847,7 +880,7 @@ func interleaved(r *mc.Run, c *gen.DebCompressor, comps []string) {
 			}
 			short := [][]Op{pairs[0], pairs[len(pairs)-1]}
 			for _, sch := range pairs {
-				if sch[0].Kind == "load" && sch[0].Pkg == 0 && sch[1].Kind == "load" && sch[2].Kind == "read" && sch[3].Kind == "read" {
+				if sch[0].Kind == "load" && sch[0].Pkg == 0 && sch[1].Kind == "load" && sch[2].Kind == "read" && sch[3].Kind == "read" && sch[4].Pkg == 0 {
 					short = append(short, sch) // load 0, load 1, read x, read y, closes in 2 orders
 				}
 			}
